@@ -115,3 +115,51 @@ func VC_C05_conc_3x2() { vConc(3, 2) }
 
 // VC_C05_conc_2x3: thorough.
 func VC_C05_conc_2x3() { vConc(2, 3) }
+
+func vC05F(i int) int { return 0 }
+
+// VC_C05_api: sequences attached to two conditions and to the default through
+// Return/AndReturn/Returns advance independently and stick at their last element.
+func VC_C05_api() {
+	d0, d1 := verifInt("d0"), verifInt("d1")
+	a0, a1 := verifInt("a0"), verifInt("a1")
+	b0, b1, b2 := verifInt("b0"), verifInt("b1"), verifInt("b2")
+	w, err := CreateWhen(nil, vC05F, nil, []interface{}{d0}, false)
+	verifAssert(err == nil, "C05.api.create-ok")
+	w.AndReturn(d1)
+	w.When(5).Return(a0).AndReturn(a1)
+	w.When(6).Returns(b0, b1, b2)
+	f := reflect.MakeFunc(w.funcTyp, func(args []reflect.Value) []reflect.Value { return w.invoke(args) }).Interface().(func(int) int)
+	calls := [12]int{5, 9, 5, 6, 9, 5, 6, 6, 6, 9, 6, 5}
+	wantA := [3]int{a0, a1, a1}
+	wantB := [5]int{b0, b1, b2, b2, b2}
+	wantD := [3]int{d0, d1, d1}
+	ia, ib, id := 0, 0, 0
+	for _, c := range calls {
+		got := f(c)
+		switch c {
+		case 5:
+			k := ia
+			if k > 2 {
+				k = 2
+			}
+			verifAssert(got == wantA[k], "C05.api.condition-sequence")
+			ia++
+		case 6:
+			k := ib
+			if k > 4 {
+				k = 4
+			}
+			verifAssert(got == wantB[k], "C05.api.returns-sequence")
+			ib++
+		default:
+			k := id
+			if k > 2 {
+				k = 2
+			}
+			verifAssert(got == wantD[k], "C05.api.default-sequence")
+			id++
+		}
+	}
+	verifReached("C05.api")
+}
